@@ -82,7 +82,7 @@ func vpH_C19_detect__3(c int) {
 	in := append(vpHeaderBytes(minor, uint8(typ), seq, flags, sid, len(clear)), wire...)
 	conn := newVPConn(in)
 	invoked := 0
-	s := &Server{loggerProvider: &vpLogger{}}
+	s := NewServer(&vpLogger{}, nil)
 	s.handle(newVPCtx(), newCrypter(secret, conn, false), HandlerFunc(func(resp Response, req Request) {
 		invoked++
 		resp.Reply(NewAcctReply(SetAcctReplyStatus(AcctReplyStatusSuccess)))
@@ -158,7 +158,7 @@ func vpH_C19_valid__4(c int) {
 	conn := newVPConn(in)
 	invoked := 0
 	var seen []byte
-	s := &Server{loggerProvider: &vpLogger{}}
+	s := NewServer(&vpLogger{}, nil)
 	s.handle(newVPCtx(), newCrypter(secret, conn, false), HandlerFunc(func(resp Response, req Request) {
 		invoked++
 		seen = req.Body
